@@ -162,7 +162,93 @@ pub fn g1_add(a: &G1, b: &G1) -> G1 {
     let y3 = sm(&(&lam * sm(x1, &x3)), y1);
     Some((x3, y3))
 }
+// homogeneous projective (X:Y:Z) double-and-add for y^2 z = x^3 + b z^3 (a = 0), generic over the coordinate
+// field through closures; `g1_mul_affine` / `g2_mul_affine` stay the anchors (self-test compares them)
+fn pj_mul<F: Clone + PartialEq>(
+    k: &BigUint,
+    base: &(F, F),
+    zero: &F,
+    one: &F,
+    add: &dyn Fn(&F, &F) -> F,
+    sub: &dyn Fn(&F, &F) -> F,
+    mulf: &dyn Fn(&F, &F) -> F,
+    inv: &dyn Fn(&F) -> F,
+) -> Option<(F, F)> {
+    let inf = (zero.clone(), one.clone(), zero.clone());
+    let two = |x: &F| add(x, x);
+    let dbl = |p: &(F, F, F)| -> (F, F, F) {
+        if p.2 == *zero || p.1 == *zero {
+            return inf.clone();
+        }
+        let (x1, y1, z1) = p;
+        let xx = mulf(x1, x1);
+        let w = add(&two(&xx), &xx); // a = 0
+        let s = two(&mulf(y1, z1));
+        let ss = mulf(&s, &s);
+        let sss = mulf(&s, &ss);
+        let r = mulf(y1, &s);
+        let rr = mulf(&r, &r);
+        let xr = add(x1, &r);
+        let b = sub(&sub(&mulf(&xr, &xr), &xx), &rr);
+        let h = sub(&mulf(&w, &w), &two(&b));
+        (mulf(&h, &s), sub(&mulf(&w, &sub(&b, &h)), &two(&rr)), sss)
+    };
+    let addp = |p1: &(F, F, F), p2: &(F, F, F)| -> (F, F, F) {
+        if p1.2 == *zero {
+            return p2.clone();
+        }
+        if p2.2 == *zero {
+            return p1.clone();
+        }
+        let (x1, y1, z1) = p1;
+        let (x2, y2, z2) = p2;
+        let y1z2 = mulf(y1, z2);
+        let x1z2 = mulf(x1, z2);
+        let z1z2 = mulf(z1, z2);
+        let u = sub(&mulf(y2, z1), &y1z2);
+        let v = sub(&mulf(x2, z1), &x1z2);
+        if v == *zero {
+            return if u == *zero { dbl(p1) } else { inf.clone() };
+        }
+        let uu = mulf(&u, &u);
+        let vv = mulf(&v, &v);
+        let vvv = mulf(&v, &vv);
+        let r = mulf(&vv, &x1z2);
+        let a = sub(&sub(&mulf(&uu, &z1z2), &vvv), &two(&r));
+        (mulf(&v, &a), sub(&mulf(&u, &sub(&r, &a)), &mulf(&vvv, &y1z2)), mulf(&vvv, &z1z2))
+    };
+    let b3 = (base.0.clone(), base.1.clone(), one.clone());
+    let mut r = inf.clone();
+    for i in (0..k.bits()).rev() {
+        r = dbl(&r);
+        if k.bit(i) {
+            r = addp(&r, &b3);
+        }
+    }
+    if r.2 == *zero {
+        return None;
+    }
+    let zi = inv(&r.2);
+    Some((mulf(&r.0, &zi), mulf(&r.1, &zi)))
+}
+
 pub fn g1_mul(k: &BigUint, a: &G1) -> G1 {
+    let p = params().p.clone();
+    let base = a.as_ref()?;
+    let (p1, p2, p3, p4) = (p.clone(), p.clone(), p.clone(), p.clone());
+    pj_mul(
+        k,
+        base,
+        &BigUint::zero(),
+        &BigUint::one(),
+        &move |x: &BigUint, y: &BigUint| (x + y) % &p1,
+        &move |x: &BigUint, y: &BigUint| ((x % &p2) + &p2 - (y % &p2)) % &p2,
+        &move |x: &BigUint, y: &BigUint| (x * y) % &p3,
+        &move |x: &BigUint| x.modinv(&p4).unwrap(),
+    )
+}
+
+pub fn g1_mul_affine(k: &BigUint, a: &G1) -> G1 {
     let mut r: G1 = None;
     for i in (0..k.bits()).rev() {
         r = g1_add(&r, &r);
@@ -211,6 +297,11 @@ pub fn g2_add(a: &G2, b: &G2) -> G2 {
     Some((x3, y3))
 }
 pub fn g2_mul(k: &BigUint, a: &G2) -> G2 {
+    let base = a.as_ref()?;
+    pj_mul(k, base, &f2(0, 0), &f2(1, 0), &|x: &F2, y: &F2| f2add(x, y), &|x: &F2, y: &F2| f2sub(x, y), &|x: &F2, y: &F2| f2mul(x, y), &|x: &F2| f2inv(x).unwrap())
+}
+
+pub fn g2_mul_affine(k: &BigUint, a: &G2) -> G2 {
     let mut r: G2 = None;
     for i in (0..k.bits()).rev() {
         r = g2_add(&r, &r);
@@ -696,6 +787,12 @@ pub fn selftest(full: bool) -> Vec<(String, bool)> {
     let pr = params();
     let mut r = vec![];
     r.push(("sm9 generators on curve, [N]P1 = O, [N]P2 = O".to_string(), g1_on_curve(&pr.p1.0, &pr.p1.1) && g2_on_curve(&pr.p2.0, &pr.p2.1) && g1_mul(&pr.n, &g1_gen()).is_none() && g2_mul(&pr.n, &g2_gen()).is_none()));
+    let mut okm = true;
+    for kk in [BigUint::one(), BigUint::from(2u32), BigUint::from(5u32), &pr.n - 1u32, pr.n.clone(), &pr.n + 3u32, hexn("000130E78459D78545CB54C587E02CF480CE0B66340F319F348A1D5B1F2DC5F4")] {
+        okm &= g1_mul(&kk, &g1_gen()) == g1_mul_affine(&kk, &g1_gen());
+        okm &= g2_mul(&kk, &g2_gen()) == g2_mul_affine(&kk, &g2_gen());
+    }
+    r.push(("projective G1/G2 scalar multiplication == affine double-and-add".to_string(), okm));
     // signature example
     let ks = hexn("000130E78459D78545CB54C587E02CF480CE0B66340F319F348A1D5B1F2DC5F4");
     let ppubs = g2_mul(&ks, &g2_gen()).unwrap();
